@@ -857,7 +857,30 @@ func (e *CoreExtension) testSameAs(value interface{}, args ...interface{}) (bool
 	if len(args) == 0 {
 		return false, errors.New("same_as test requires an argument")
 	}
-	return value == args[0], nil
+	return sameValue(value, args[0]), nil
+}
+
+// sameValue is the identity comparison of the same_as test. Lists, hashes and
+// functions cannot be compared with ==: they are the same only if they are
+// the same object.
+func sameValue(a, b interface{}) bool {
+	ra, rb := reflect.ValueOf(a), reflect.ValueOf(b)
+	if !ra.IsValid() || !rb.IsValid() {
+		return a == b
+	}
+	if ra.Comparable() && rb.Comparable() {
+		return a == b
+	}
+	if ra.Type() != rb.Type() {
+		return false
+	}
+	switch ra.Kind() {
+	case reflect.Slice:
+		return ra.Len() == rb.Len() && ra.Pointer() == rb.Pointer()
+	case reflect.Map, reflect.Func:
+		return ra.Pointer() == rb.Pointer()
+	}
+	return false
 }
 
 func (e *CoreExtension) testDivisibleBy(value interface{}, args ...interface{}) (bool, error) {
